@@ -23,13 +23,17 @@ for it in range(R.n(30, 500)):
     fp = stg.gaussian_f_profile(3 * df)
     kw = dict(integrate_path=integ, integrate_t_profile=integ, doppler_smearing=smear, t_subsamples=3, smearing_subsamples=2)
     c = dict(frames=m, n=n, dt=dt, starts=[f.t_start for f in frames], integ=integ, smear=smear, drift=drift)
+    # every other frame carries a non-default time axis (sample mid-points): it must come back exactly as it was
+    extra = [(0.5 * dt if k_ % 2 else 0.0) for k_ in range(m)]
+    for f_, e_ in zip(frames, extra):
+        f_.ts = f_.ts + e_
     ts_before = [f.ts.copy() for f in frames]
     ok = R.guard('cadence.add_signal', c, lambda: (cad.add_signal(path, tprof, fp, **kw), True)[1])
     if not ok:
         continue
     worst, ts_ok = 0.0, True
-    for f, g, tb in zip(frames, copies, ts_before):
-        off = f.t_start - frames[0].t_start
+    for f, g, tb, e_ in zip(frames, copies, ts_before, extra):
+        off = f.t_start - frames[0].t_start + e_
         # independent reference: an untouched copy with its own time axis starting at 0, injected with the time-translated callables
         # (no shifted axis involved on the reference side)
         g.add_signal(lambda tt, off=off: path(tt + off), lambda tt, off=off: tprof(tt + off), fp, **kw)
